@@ -18,8 +18,23 @@ tree through the public Field API node by node and checks, on the real code alon
 * two-output ufunc calls (`np.divmod(f, g)`): both results cell by cell, validity, mesh, operands untouched, refusals.
 
 The same tree goes to the Lean model (`evalF`) and everything observable is compared exactly.
+
+Magnitudes (the values above are small integers and +-2^k of order one; nothing the code decides by the SIZE of a value -
+np.isclose(x, 0), np.allclose defaults, "tiny means zero" guards, rounding "noise" away, a detour through single precision -
+shows on them):
+
+* `stream_scaled`: cases of the other streams with every leaf field multiplied by 2^k (k per group of fields: 1e-15 .. 1e12
+  mostly, 1e-90 .. 1e60 at the ends; integer-typed leaves only upwards) and every number / constant vector / per-cell array
+  by the power of two that keeps the expression homogeneous - significands untouched, so still an equality with the model;
+* `stream_mfloat`: full-significand data (binary64 / binary32 / complex / integer leaves, NumPy and Python scalars incl.
+  np.float32, lists, tuples, ndarrays of four dtypes), every operand at a magnitude of its own, numbers next to 0 and 1,
+  zeros sprinkled in, angle of (anti)parallel vectors; reference = the expression evaluated by NumPy on the whole arrays under
+  broadcasting with a running rounding-error bound (`Ref`), code and exact model value both within that bound;
+* meshes at other length scales and places (`magnify_mesh`: cells 2^-48 .. 2^30, up to 2^20 cells from the origin) in every
+  stream incl. the mismatch stream, and meshes with thousands of cells along one axis (`stream_long`).
 """
 import operator
+import os
 import random
 from fractions import Fraction
 from functools import reduce
@@ -39,7 +54,15 @@ RULE = ("random expression trees (depth<=4 quick / <=6 thorough) over 1-4 leaf f
         "Fraction(impl) == model rational; angle/phase/tolerance-division through route (iii) with |err| <= 2^-40 scale; plus a malformed "
         "stream (wrong lengths, odd array shapes, lists into ufuncs, 2**f, scalar.dot(vector)), a mismatch stream (different meshes, "
         "component counts), a metadata stream (labelled scalars, differing labels) and a two-output-ufunc stream (np.divmod / np.modf "
-        "on fields, numbers, arrays, lists, complex data, other meshes / counts: the tuple branch of __array_ufunc__). non-trivial = the tree has an operation, "
+        "on fields, numbers, arrays, lists, complex data, other meshes / counts: the tuple branch of __array_ufunc__). MAGNITUDES: a rescaled "
+        "stream (trees / angle / phase / tolerance division / divmod / metadata cases with all leaves times 2^k per field group, k from "
+        "-300 to +200 i.e. 1e-90 .. 1e60, mostly 1e-15 .. 1e12, operands rescaled to keep the tree homogeneous: still exact, tags scaled:*), "
+        "a full-significand stream in the tolerance regime (53/24-bit random significands, float64/float32/complex128/complex64/int64/"
+        "int32/inferred dtypes, each operand at its own magnitude 1e-60 .. 1e60, np.float32 scalars, float32 arrays, numbers next to 0 and 1, "
+        "zeros, angle with a field / multiple of itself / sum-difference / vector / per-cell array / number; reference = NumPy on the whole "
+        "arrays with a running rounding bound, tags result-magnitude:*, angle:*), every stream's mesh at 40 % rescaled by 2^j "
+        "(j -48 .. 30: picometre to gigametre cells) and moved up to 2^20 cells from the origin (tags mesh-scale:*), and shallow trees on "
+        "meshes with 257 .. 4096 (thorough: 8191) cells along one axis (tag cells-along-longest-axis). non-trivial = the tree has an operation, "
         "evaluates to a field with >1 cell or >1 component and non-constant data")
 TRUSTED = ["harness/c03.py + driver JSON glue (lean/DFV/Drv/C03.lean)",
            "NumPy elementwise functions, broadcasting, einsum, cross, stack, full: modelled by contract (bshape/bproj index maps)",
@@ -49,12 +72,23 @@ ASSUMPTIONS = ["exact-regime inputs: every binary64 operation on the code path i
                "so equality is demanded", "IEEE special values (division by zero, 0**-1, signed zeros, angle of a zero vector or of "
                "(anti)parallel vectors rounding above 1) are outside the model; generators avoid them or the comparator only "
                "requires non-finite on both sides",
+               "tolerance regime (kinds mtree / mangle): |code - NumPy reference| <= 4 * bound and |code - exact model value| <= 4 * bound, "
+               "bound = first-order running rounding analysis of the reference evaluation (unit roundoff of each intermediate's dtype, "
+               "conversions, underflow granularity, factor 4 per operation); entries whose reference or bound is not finite are undecided "
+               "(tag undecided-cells); the angle is compared through its cosine (nan only where |cos| >= 1 - bound); a+b against b+a "
+               "to rtol 1e-13 (1e-5 single) there, since fused multiply-add may round the two orders of a complex product differently",
+               "integer data: values and integer-typed intermediates stay below 2^53 (int64) / 2^30 (int32) - wrap-around is outside the "
+               "model, and beyond 2^53 the code is known to differ from NumPy (results are rebuilt as binary64; VERIF_C03_BIGINT=1 "
+               "generates such data and demands equality)",
                "non-integer exponents, arccos/phase of complex values, labels clashing with Field attribute names, "
                "ndarray @/&/<< Field are outside the model and not generated",
                "side condition LiftOk of the cell-wise theorems: an array-like directly under << / .angle() is not mesh-shaped "
                "(Field(mesh, value=array of shape mesh.n) reads it as per-cell scalars); such cases are still compared model-vs-code, "
                "only the per-cell oracle is skipped (tag mesh-shaped-operand-under-shl/angle)"]
-UNPROVED = ["eval_pure (operand immutability) is a runtime fact: the functional model has it by construction; the code is checked by "
+UNPROVED = ["magnitude independence is a property of the CODE only: the model computes in exact rationals, where scaling is trivially "
+            "harmless; that the binary64 code takes no decision by the size of a value (absolute tolerances, guards, rounding to decimals, "
+            "narrower intermediate types) is established by the rescaled (exact) and full-significand (tolerance) streams, not by a theorem",
+            "eval_pure (operand immutability) is a runtime fact: the functional model has it by construction; the code is checked by "
             "snapshots around every evaluation step (every operator, ufunc and two-output call, both operand orders)",
             "comm_meta at full strength is false of the code (open findings D10 / D51, theorems comm_meta_fails / "
             "comm_meta_fails_scalar); comm_meta_partial, comm_meta_trees_partial (scalar-with-vector, equal labels) and comm_meta_raw "
@@ -67,7 +101,7 @@ UNPROVED = ["eval_pure (operand immutability) is a runtime fact: the functional 
             "theorem (only by the conditional eval_cellwise and the correspondence run): ** with a field / array exponent, "
             "np.power(number, f), << and angle with a non-field operand, other broadcastable array shapes (n+[1], [1], 0-d), "
             "a scalar field first in a ufunc call with a vector field second"]
-BUDGET = {"quick": 85, "thorough": 900}
+BUDGET = {"quick": 100, "thorough": 1100}
 
 LABELS = ["a", "b", "c", "p", "q", "mx", "my", "mz", "ft_x", "ft_y", "s1", "t2", "x", "y", "z"]
 DTYPES = {"float64": np.float64, "float32": np.float32, "int64": np.int64, "int32": np.int32,
@@ -191,6 +225,8 @@ def gen_arr(rng, shape, pow2=False, allow_cplx=True, py=None, cls=None):
         dtype = "float64"
     count = int(np.prod(shape)) if shape else 1
     re, im = gen_values(rng, count, cls, cplx)
+    if cls == "int" and rng.random() < 0.04:
+        re, im = ["0"] * count, (["0"] * count if cplx else None)   # the zero vector / an all-zero array as an operand
     node = dict(t="arr", shape=list(shape), re=re, im=im, py=py, dtype=dtype)
     return G(node, ("vec", shape[-1]) if len(shape) == 1 else ("arr", shape[-1] if shape else 0), 3 + (1 if cplx else 0),
              -1 if cls == "pow2" else 0, pow2=cls == "pow2", cplx=cplx, field=False, shape=list(shape))
@@ -487,9 +523,33 @@ class TreeGen:
         return self.mk_bin("shl", a, b, max(L.hi, R.hi), min(L.lo, R.lo), nv=cnt(L) + cnt(R))
 
 
+def magnify_mesh(rng, spec, far=None):
+    """the same mesh at another length scale and place: corners and cells times 2^j (nanometre and picometre cells, kilometre
+    cells), the region moved by up to 2^20 cells along one axis - all exactly, so cells, faces and the one-cell shifts of the
+    mismatch stream keep their exact relations while absolute tolerances (np.allclose defaults) and tolerances relative to
+    the distance from the origin would show"""
+    ndim = len(spec["n"])
+    p1, p2 = [Fraction(x) for x in spec["p1"]], [Fraction(x) for x in spec["p2"]]
+    j = rng.choice([rng.randint(-48, -20), rng.randint(-48, -20), rng.randint(-20, -4), rng.randint(4, 30), 0])
+    if (rng.random() < 0.4) if far is None else far:
+        ax = rng.randrange(ndim)
+        cell = (p2[ax] - p1[ax]) / spec["n"][ax]
+        off = cell * rng.choice([-1, 1]) * 2 ** rng.choice([rng.randint(6, 20), rng.randint(16, 20)])
+        p1[ax], p2[ax] = p1[ax] + off, p2[ax] + off
+        far = True
+    else:
+        far = False
+    m = Fraction(2) ** j
+    out = dict(spec, p1=[float(x * m) for x in p1], p2=[float(x * m) for x in p2], mag=[j, far])
+    assert [Fraction(x) for x in out["p1"]] == [x * m for x in p1] and [Fraction(x) for x in out["p2"]] == [x * m for x in p2]
+    return out
+
+
 def gen_env(rng, tier, nfields=None, same_nv=False):
     spec = fieldio.gen_mesh_spec(rng, max_cells=30 if tier == "quick" else 48, nmax=4 if tier == "quick" else 5)
     spec["bc"] = ""
+    if rng.random() < 0.4:
+        spec = magnify_mesh(rng, spec)
     n = spec["n"]
     ndim = len(n)
     dims = spec["dims"] or (["x", "y", "z"][:ndim] if ndim <= 3 else [f"x{i}" for i in range(ndim)])
@@ -626,6 +686,9 @@ def stream_mismatch(rng, tier, count):
         ndim = len(n)
         ncells = int(np.prod(n))
         how = rng.choice(["shift", "shift", "n", "dims", "units", "same-copy", "nvdim", "nvdim", "bigshift", "bc"])
+        if how in ("shift", "bigshift") and "mag" not in spec and rng.random() < 0.6:
+            # meshes a cell apart where that is little against the cell's own size or against the distance from the origin
+            spec = magnify_mesh(rng, spec, far=rng.random() < 0.6)
         spec2 = dict(spec)
         if how in ("shift", "bigshift"):
             ax = rng.randrange(ndim)
@@ -739,6 +802,833 @@ def stream_pair(rng, tier, count):
         yield dict(kind="pair", fn="modf" if how == "modf" else "divmod", how=how, meshes=meshes, fields=[f1, f2], l=l, r=r)
 
 
+# ---------------------------------------------------------------- magnitudes, exact regime: rescaling by powers of two
+# Every leaf field of a case is multiplied by 2^k (k per group of fields; from 2^-300 to 2^+200, mostly 1e-15 .. 1e12), the
+# non-field operands (numbers, constant vectors, per-cell arrays) by the power of two that keeps the expression
+# homogeneous.  A power of two changes no significand, so every binary64 operation stays exact and the comparison with the
+# model stays an equality - while any decision of the code that depends on the magnitude of the values (absolute
+# tolerances such as np.isclose(x, 0), np.allclose defaults, "tiny means zero" guards, clipping, detours through a
+# narrower dtype's range) now shows.
+class Inhomog(Exception):
+    pass
+
+
+def _frac_bits(vals):
+    """(hi, lo): every non-zero dyadic value v in vals has 2^lo | v and |v| < 2^hi"""
+    hi, lo = None, None
+    for v in vals:
+        if v == 0:
+            continue
+        p, q = abs(v.numerator), v.denominator
+        e = q.bit_length() - 1
+        if q != 1 << e:
+            raise Inhomog("not dyadic")
+        h = p.bit_length() - e
+        l = (p & -p).bit_length() - 1 - e
+        hi = h if hi is None else max(hi, h)
+        lo = l if lo is None else min(lo, l)
+    return (0, 0) if hi is None else (hi, lo)
+
+
+def _vals_of(obj):
+    vals = [F(x) for x in obj["re"]] if "re" in obj else [F(obj["v"][0]), F(obj["v"][1])]
+    if obj.get("im") is not None:
+        vals += [F(x) for x in obj["im"]]
+    return vals
+
+
+SAME_DEG = ("pos", "neg", "abs", "absP", "real", "imag", "conj", "unegative", "upositive", "uabsolute", "uconjugate")
+
+
+def homogeneity(expr, fields, fdeg, rng):
+    """degree of homogeneity (a vector over the scale groups) and static bit range of every node of `expr`, given the
+    degree `fdeg[k]` of leaf field k; free operands (numbers / arrays) get the degree their context needs, stored in
+    node['_deg'].  Returns the list of (degree, hi, lo) constraints; raises Inhomog when no assignment exists."""
+    zero = tuple(0 for _ in fdeg[0])
+    cons = []
+    add = lambda a, b: tuple(x + y for x, y in zip(a, b))
+    mul = lambda k, a: tuple(k * x for x in a)
+
+    def fix(node, info, d):
+        if info[0] is None:
+            if node["t"] not in ("num", "arr"):
+                raise Inhomog("free subtree")
+            node["_deg"] = list(d)
+            cons.append((d, info[1], info[2]))
+            return d
+        if info[0] != d:
+            raise Inhomog("degrees differ")
+        return d
+
+    def some_deg():
+        g = rng.randrange(len(zero))
+        s = rng.choice([0, 0, 1, -1, 1])
+        return tuple(s if i == g else 0 for i in range(len(zero)))
+
+    def an(node):
+        t = node["t"]
+        if t == "leaf":
+            hi, lo = _frac_bits(_vals_of(fields[node["k"]]))
+            hi += 1 if fields[node["k"]]["im"] is not None else 0
+            cons.append((fdeg[node["k"]], hi, lo))
+            return fdeg[node["k"]], hi, lo
+        if t in ("num", "arr"):
+            hi, lo = _frac_bits(_vals_of(node))
+            return None, hi + 1, lo
+        if t == "un":
+            d, hi, lo = an(node["e"])
+            if d is None:
+                raise Inhomog("free subtree")
+            op = node["op"]
+            if op in SAME_DEG:
+                r = (d, hi + 1, lo)
+            elif op == "usquare":
+                r = (mul(2, d), 2 * hi + 1, 2 * lo)
+            elif op in ("usign", "phase"):
+                r = (zero, 2, 0)
+            else:
+                raise Inhomog(op)
+            cons.append(r)
+            return r
+        L, R = an(node["l"]), an(node["r"])
+        op = node["op"]
+        if L[0] is None and R[0] is None:
+            raise Inhomog("two free operands")
+        if op in ("add", "sub", "uadd", "usub", "umax", "umin", "shl"):
+            d = L[0] if L[0] is not None else R[0]
+            fix(node["l"], L, d), fix(node["r"], R, d)
+            r = (d, max(L[1], R[1]) + 1, min(L[2], R[2]))
+        elif op in ("mul", "umul", "dot", "cross"):
+            dl = fix(node["l"], L, L[0] if L[0] is not None else some_deg())
+            dr = fix(node["r"], R, R[0] if R[0] is not None else some_deg())
+            r = (add(dl, dr), L[1] + R[1] + 3, L[2] + R[2])
+        elif op in ("div", "udiv"):
+            dl = fix(node["l"], L, L[0] if L[0] is not None else some_deg())
+            dr = fix(node["r"], R, R[0] if R[0] is not None else some_deg())
+            r = (add(dl, mul(-1, dr)), L[1] - R[2] + 2, L[2] - R[1])
+        elif op in ("pow", "upow"):
+            if L[0] is None:
+                raise Inhomog("number ** field")
+            if node["r"]["t"] == "num":
+                k = F(node["r"]["v"][0])
+                if k.denominator != 1 or F(node["r"]["v"][1]) != 0:
+                    raise Inhomog("exponent")
+                k = int(k)
+                fix(node["r"], R, zero)
+                ak = abs(k)
+                r = (mul(k, L[0]),) + ((ak * L[1] + ak, ak * L[2]) if k >= 0 else (-ak * L[2] + ak, -ak * L[1] - ak))
+            else:
+                # exponents that vary from cell to cell: only a base of degree 0 stays homogeneous
+                fix(node["r"], R, zero)
+                if L[0] != zero:
+                    raise Inhomog("varying exponent")
+                r = (zero, 3 * L[1] + 3, min(3 * L[2], 0))
+        elif op == "angle":
+            dl = fix(node["l"], L, L[0] if L[0] is not None else some_deg())
+            dr = fix(node["r"], R, R[0] if R[0] is not None else some_deg())
+            # inside: the dot product, the sums of squares under the two norms, the product of the norms
+            cons.append((add(dl, dr), L[1] + R[1] + 3, L[2] + R[2]))
+            cons.append((mul(2, dl), 2 * L[1] + 3, 2 * L[2]))
+            cons.append((mul(2, dr), 2 * R[1] + 3, 2 * R[2]))
+            r = (zero, 2, 0)
+        else:
+            raise Inhomog(op)
+        cons.append(r)
+        return r
+
+    root = an(expr)
+    if root[0] is None:
+        raise Inhomog("free root")
+    return cons
+
+
+def draw_log2_scale(rng, lo_dec=-90, hi_dec=60):
+    """log2 of a scale factor: mostly the magnitudes of quantities in SI units (1e-15 .. 1e12), sometimes far beyond"""
+    r = rng.random()
+    if r < 0.42:
+        e = rng.uniform(-15, -3)
+    elif r < 0.72:
+        e = rng.uniform(3, 12)
+    elif r < 0.80:
+        e = rng.choice([-1, 1]) * rng.uniform(0.3, 3)
+    elif r < 0.91:
+        e = rng.uniform(lo_dec, -15)
+    else:
+        e = rng.uniform(12, hi_dec)
+    return int(round(e * 3.321928))
+
+
+def _scale_vals(xs, e):
+    m = Fraction(2) ** e
+    return [Q(F(x) * m) for x in xs]
+
+
+def rescale_case(case, rng):
+    """the case with every magnitude moved by exact powers of two (a deep copy), or None when the expression is not
+    homogeneous in its leaves"""
+    import copy
+    case = copy.deepcopy({k: v for k, v in case.items() if not k.startswith("_")})
+    fields = case["fields"]
+    if rng.random() < 0.55:
+        # integer-typed leaves can only grow; as binary64 leaves the same values can shrink as well
+        for fs in fields:
+            if fs["dtype"] in ("int64", "int32"):
+                fs["dtype"] = rng.choice([None, "float64"])
+    ints = [fs["dtype"] for fs in fields if fs["dtype"] in ("int64", "int32")]
+    single = any(fs["dtype"] in ("float32", "complex64") for fs in fields)
+    ngroups = 1 if (ints or rng.random() < 0.65) else 2
+    group = [rng.randrange(ngroups) for _ in fields]
+    fdeg = [tuple(1 if g == group[k] else 0 for g in range(ngroups)) for k in range(len(fields))]
+    try:
+        if case["kind"] == "pair":
+            # divmod(x s, y s) = (x // y, (x % y) s): both operands carry the same scale
+            if case["fn"] != "divmod":
+                return None
+            cons = []
+            for side in (case["l"], case["r"]):
+                if side["t"] == "leaf":
+                    fdeg[side["k"]] = (1,) + (0,) * (ngroups - 1)
+                    cons.append((fdeg[side["k"]],) + _frac_bits(_vals_of(fields[side["k"]])))
+                else:
+                    side["_deg"] = [1] + [0] * (ngroups - 1)
+                    cons.append((tuple(side["_deg"]),) + _frac_bits(_vals_of(side)))
+        else:
+            cons = homogeneity(case["expr"], fields, fdeg, rng)
+    except Inhomog:
+        return None
+    if ints:
+        HI, LO = (28 if "int32" in ints else 50), -40
+    elif single:
+        HI, LO = 100, -100
+    else:
+        HI, LO = 900, -900
+    K = [draw_log2_scale(rng, lo_dec=-25 if single else -90, hi_dec=25 if single else 60) for _ in range(ngroups)]
+    if ints:
+        K = [abs(k) for k in K]
+    sc = lambda d: sum(k * x for k, x in zip(K, d))
+    for _ in range(60):
+        if all(LO <= lo + sc(d) and hi + sc(d) <= HI for d, hi, lo in cons):
+            break
+        K = [int(k * 0.8) for k in K]
+    if not any(K):
+        return None
+    for k, fs in enumerate(fields):
+        e = sc(fdeg[k])
+        if e:
+            fs["re"] = _scale_vals(fs["re"], e)
+            if fs["im"] is not None:
+                fs["im"] = _scale_vals(fs["im"], e)
+
+    def apply(node):
+        if node["t"] in ("num", "arr"):
+            d = node.pop("_deg", None)
+            e = sc(d) if d else 0
+            if not e:
+                return
+            if node["t"] == "num":
+                node["v"] = _scale_vals(node["v"], e)
+                v = F(node["v"][0])
+                if node["py"] in ("int", "np.int64") and (v.denominator != 1 or abs(v) >= 2 ** 15):
+                    node["py"] = {"int": "float", "np.int64": "np.float64"}[node["py"]]
+            else:
+                node["re"] = _scale_vals(node["re"], e)
+                if node["im"] is not None:
+                    node["im"] = _scale_vals(node["im"], e)
+                # (integer-typed operands stay small: their squares and products are formed in integer arithmetic)
+                if node["dtype"] == "int64" and any(F(x).denominator != 1 or abs(F(x)) >= 2 ** 15 for x in node["re"]):
+                    node["dtype"] = "float64"
+        elif node["t"] == "un":
+            apply(node["e"])
+        elif node["t"] == "bin":
+            apply(node["l"]), apply(node["r"])
+    if case["kind"] == "pair":
+        apply(case["l"]), apply(case["r"])
+    else:
+        apply(case["expr"])
+    case["scaled"] = K
+    return case
+
+
+def mag_bucket(k):
+    """decade bucket of the scale 2^k, for the distribution tags"""
+    e = k * 0.30103
+    for b in (-60, -30, -15, -12, -9, -6, -3, 0, 3, 6, 9, 12, 15, 30, 60):
+        if e < b:
+            return f"<1e{b}"
+    return ">=1e60"
+
+
+def stream_scaled(rng, tier, count):
+    """cases of the other streams (trees, angle, phase, tolerance division, two-output ufuncs, metadata, malformed trees) at
+    other magnitudes"""
+    srcs = [(stream_main, 5), (stream_route3, 5), (stream_pair, 1), (stream_meta, 1), (stream_malformed, 2)]
+    pool = [fn for fn, w in srcs for _ in range(w)]
+    made = 0
+    while made < count:
+        fn = rng.choice(pool)
+        for _ in range(12):
+            base = next(fn(rng, tier, 1))
+            if fn is stream_main and rng.random() < 0.5:
+                # shallow trees are homogeneous more often
+                spec, dims, fields = gen_env(rng, tier)
+                tg = TreeGen(rng, fields, spec["n"], 2)
+                g = tg.gen(rng.randint(1, 2))
+                base = dict(kind="tree", meshes=[spec], fields=fields, expr=g.node)
+            if base["kind"] != "pair" and base["expr"]["t"] == "leaf":
+                continue
+            c = rescale_case(base, rng)
+            if c is not None:
+                yield c
+                break
+        made += 1
+
+
+# ---------------------------------------------------------------- magnitudes, tolerance regime: full significands
+# Leaf fields, numbers, constant vectors and per-cell arrays with random 53-bit (24-bit for single precision) significands,
+# every operand at a magnitude of its own (1e-15 .. 1e12, sometimes 1e-60 .. 1e60; integer fields up to 2^61), numbers
+# next to the neutral elements (1 +- 1e-9, +-1e-12), zeros sprinkled in.  Nothing is exact here: the reference is the
+# same expression evaluated by NumPy on the whole arrays under broadcasting, together with a running bound of the rounding
+# error (`Ref`); the real code has to stay within that bound of the reference and of the exact model value.
+# Integer fields whose values (or whose integer-typed intermediate results) exceed 2^53: every operation rebuilds its result
+# through the constructor without a dtype, which converts to binary64, so e.g. (-f) for an int64 field holding 2^53+1 holds
+# -2^53 - not what NumPy gives for the same expression.  Reported to the lead as a candidate finding; the default
+# generator keeps integer data below 2^53 (VERIF_C03_BIGINT=1 lifts the limit to 2^62 and demands equality).
+BIGINT = bool(os.environ.get("VERIF_C03_BIGINT"))
+INT_LIM = {8: 2.0 ** 62 if BIGINT else 2.0 ** 53, 4: 2.0 ** 30}
+MF_DTYPES = [None, None, "float64", "float64", "float32", "float32", "complex128", "complex64", "int64", "int32", "cvalue"]
+MF_REAL = [None, "float64", "float64", "float32", "float32", "int64", "int32"]
+
+
+def draw_e10(rng, single=False):
+    r = rng.random()
+    if r < 0.40:
+        e = rng.uniform(-15, -3)
+    elif r < 0.65:
+        e = rng.uniform(3, 12)
+    elif r < 0.85:
+        e = rng.uniform(-3, 3)
+    elif r < 0.93:
+        e = rng.uniform(-60, -15)
+    else:
+        e = rng.uniform(12, 60)
+    return max(-11.0, min(11.0, e)) if single else e
+
+
+def mf_value(rng, e10, single, zeros=0.03):
+    if rng.random() < zeros:
+        return 0.0
+    v = rng.uniform(1, 2) * rng.choice([-1, 1]) * 2.0 ** rng.randint(-2, 2) * 10.0 ** e10
+    return float(np.float32(v)) if single else v
+
+
+def gen_mfield(rng, ncells, ndim, dims, nv, dtype, e10):
+    fs = gen_field_spec(rng, 0, ncells, ndim, dims, nv=nv, cls="int", dtype=dtype or "float64")
+    fs["dtype"] = dtype   # None: the constructor infers the dtype from the values
+    count = ncells * nv
+    single = dtype in ("float32", "complex64")
+    if dtype in ("int64", "int32"):
+        top = rng.choice(([8, 20, 30, 45, 55, 61] if BIGINT else [8, 20, 30, 40, 45, 52]) if dtype == "int64" else [8, 15, 24, 30])
+        fs["re"], fs["im"] = [Q(rng.randint(-2 ** top, 2 ** top)) for _ in range(count)], None
+        fs["e10"] = top * 0.30103
+    else:
+        zeros = rng.choice([0.0, 0.0, 0.03, 0.1])
+        fs["re"] = [Q(mf_value(rng, e10, single, zeros)) for _ in range(count)]
+        fs["im"] = [Q(mf_value(rng, e10, single, zeros)) for _ in range(count)] if dtype in ("complex128", "complex64", "cvalue") else None
+        fs["e10"] = e10
+    fs["cls"] = "mfloat"
+    return fs
+
+
+class MGen:
+    """small trees (depth <= 3) over full-significand operands; every subtree is a dict(node, nv, cplx, int, mg)
+    with mg ~ log10 of its magnitude (used to place the next operand near or far)"""
+
+    def __init__(self, rng, fields, n):
+        self.rng, self.fields, self.n = rng, fields, list(n)
+
+    def leaf(self, nv=None, real=False):
+        c = [k for k, fs in enumerate(self.fields) if (nv is None or fs["nvdim"] in nv) and not (real and fs["im"] is not None)]
+        if not c:
+            return None
+        k = self.rng.choice(c)
+        fs = self.fields[k]
+        return dict(node=dict(t="leaf", k=k), nv=fs["nvdim"], cplx=fs["im"] is not None, int=fs["dtype"] in ("int64", "int32"),
+                    mg=fs["e10"])
+
+    def place(self, mg):
+        r = self.rng.random()
+        if r < 0.6:
+            return mg + self.rng.uniform(-1.5, 1.5)
+        if r < 0.8:
+            return mg + self.rng.choice([-1, 1]) * self.rng.uniform(3, 14)
+        return draw_e10(self.rng)
+
+    def num(self, mg, real=False, small_int=False, near=None):
+        rng = self.rng
+        py = rng.choice(["float", "float", "int", "complex", "np.float64", "np.float32", "np.int64", "np.complex128"])
+        if real and "complex" in py:
+            py = "float"
+        if small_int:
+            py = rng.choice(["int", "np.int64"])
+        if "int" in py:
+            v = Fraction(rng.choice([-7, -3, -2, -1, 2, 3, 5, 10, 1000, 10 ** 6, 2 ** 20 + 1]) if not small_int else rng.choice([-3, -2, -1, 2, 3]))
+            im = Fraction(0)
+            e = float(np.log10(float(abs(v))))
+        else:
+            e = self.place(mg)
+            single = py == "np.float32"
+            if single:
+                e = max(-30.0, min(30.0, e))
+            x = None
+            if near is not None and rng.random() < 0.35:
+                # next to the neutral element of the operation
+                d = rng.choice([-1, 1]) * 10.0 ** rng.uniform(-14, -6)
+                x = near + d if near else d * 10.0 ** mg
+                x = float(np.float32(x)) if single else x
+            if x is not None and np.isfinite(x) and x != 0:
+                v, e = Fraction(x), (0.0 if near else float(np.log10(abs(x))))
+            else:
+                v = Fraction(mf_value(rng, e, single, zeros=0.0))
+            im = Fraction(mf_value(rng, e, False, zeros=0.0)) if "complex" in py else Fraction(0)
+        return dict(node=dict(t="num", v=[Q(v), Q(im)], py=py), nv="num", cplx="complex" in py, int="int" in py, mg=e)
+
+    def arr(self, shape, mg, real=False):
+        rng = self.rng
+        py = rng.choice(["list", "tuple", "ndarray", "ndarray"]) if len(shape) == 1 else "ndarray"
+        dtype = rng.choice(["float64", "float64", "float64", "float32", "complex128", "int64"] if py == "ndarray" else
+                           ["float64", "float64", "complex128", "int64"])
+        if real and dtype == "complex128":
+            dtype = "float64"
+        count = int(np.prod(shape))
+        e = self.place(mg)
+        single = dtype == "float32"
+        if single:
+            e = max(-30.0, min(30.0, e))
+        if dtype == "int64":
+            top = rng.choice([3, 10, 20, 31])
+            re, im, e = [Q(rng.randint(-2 ** top, 2 ** top) or 1) for _ in range(count)], None, top * 0.30103
+        else:
+            re = [Q(mf_value(rng, e, single, zeros=0.0)) for _ in range(count)]
+            im = [Q(mf_value(rng, e, False, zeros=0.0)) for _ in range(count)] if dtype == "complex128" else None
+        return dict(node=dict(t="arr", shape=list(shape), re=re, im=im, py=py, dtype=dtype), nv=("arr", shape[-1]),
+                    cplx=dtype == "complex128", int=dtype == "int64", mg=e)
+
+    def operand(self, L, real=False, near=None):
+        """number / constant vector / per-cell array that fits subtree L"""
+        rng = self.rng
+        r = rng.random()
+        if r < 0.4:
+            return self.num(L["mg"], real=real, near=near)
+        k = L["nv"] if L["nv"] != 1 else rng.choice([1, 1, 2, 3])
+        if r < 0.75:
+            return self.arr([k], L["mg"], real=real)
+        return self.arr(self.n + [k], L["mg"], real=real)
+
+    def partner(self, L, depth, real=False, same_nv=False, near=None, fields_only=False):
+        rng = self.rng
+        if fields_only or rng.random() < 0.6:
+            for _ in range(5):
+                c = self.gen(depth, real=real)
+                if c["nv"] == L["nv"] or (not same_nv and (c["nv"] == 1 or L["nv"] == 1)):
+                    return c
+            if fields_only:
+                return None
+        return self.operand(L, real=real, near=near)
+
+    def gen(self, depth, real=False, nv=None):
+        rng = self.rng
+        if depth <= 0 or rng.random() < 0.2:
+            lf = self.leaf(nv=nv, real=real) or self.leaf(real=real) or self.leaf()
+            return lf
+        r = rng.random()
+        if r < 0.15:
+            e = self.gen(depth - 1, real=real)
+            op = rng.choice(["pos", "neg", "neg", "abs", "real", "imag", "conj", "absP", "unegative", "uabsolute", "usquare",
+                             "uconjugate", "upositive"])
+            if e["cplx"] and op in ("abs", "absP", "uabsolute"):
+                op = "conj"   # the modulus of a complex value needs a square root: a parameter of the model
+            mg = e["mg"] * (2 if op == "usquare" else 1)
+            cplx = e["cplx"] and op not in ("abs", "absP", "uabsolute", "real", "imag")
+            return dict(node=dict(t="un", op=op, e=e["node"]), nv=e["nv"], cplx=cplx,
+                        int=e["int"] and op not in (), mg=mg)
+        L = self.gen(depth - 1, real=real)
+        if r < 0.62:
+            op = rng.choice(["add", "add", "sub", "sub", "mul", "mul", "div", "div", "pow", "uadd", "usub", "umul", "udiv", "umax", "umin"])
+            if op in ("umax", "umin") and L["cplx"]:
+                op = "uadd"
+            if op == "pow":
+                k = rng.choice([2, 2, 3, 1, 0, -1, -2]) if not L["int"] else rng.choice([2, 2, 3, 1, 0])
+                R = dict(node=dict(t="num", v=[Q(k), "0"], py=rng.choice(["int", "int", "float", "np.float64", "np.int64"]) if k >= 0 or not L["int"] else "int"),
+                         nv="num", cplx=False, int=True, mg=0.0)
+                if k < 0 and R["node"]["py"] in ("int", "np.int64") and L["int"]:
+                    R["node"]["py"] = "float"
+                return self.bin(op, L, R, L["mg"] * k)
+            near = {"add": 0.0, "sub": 0.0, "uadd": 0.0, "usub": 0.0, "mul": 1.0, "div": 1.0, "umul": 1.0, "udiv": 1.0}.get(op)
+            R = self.partner(L, depth - 1, real=real or op in ("umax", "umin"), near=near)
+            if op in ("umax", "umin") and (R["cplx"] or L["cplx"]):
+                op = "usub"
+            if op.startswith("u") and R["node"]["t"] == "arr" and R["node"]["py"] != "ndarray":
+                R["node"]["py"] = "ndarray"   # lists into ufuncs: the malformed stream has them
+            mg = {"mul": L["mg"] + R["mg"], "umul": L["mg"] + R["mg"], "div": L["mg"] - R["mg"],
+                  "udiv": L["mg"] - R["mg"]}.get(op, max(L["mg"], R["mg"]))
+            a, b = L, R
+            if rng.random() < 0.4:
+                a, b = R, L
+                if op in ("div", "udiv"):
+                    mg = -mg
+            return self.bin(op, a, b, mg)
+        if r < 0.76:
+            R = self.partner(L, depth - 1, real=real, same_nv=True)
+            if R["nv"] == "num" or (R["nv"] != L["nv"] and not (isinstance(R["nv"], tuple) and R["nv"][1] == L["nv"])):
+                R = self.arr([L["nv"]], L["mg"], real=real)
+            a, b, form = L, R, rng.choice(["op", "method"])
+            if R["node"]["t"] == "arr" and R["node"]["py"] != "ndarray" and len(R["node"]["shape"]) == 1 and rng.random() < 0.35:
+                a, b, form = R, L, "op"
+            g = self.bin("dot", a, b, L["mg"] + R["mg"], nv=1)
+            g["node"]["form"] = form
+            return g
+        if r < 0.86:
+            L3 = L if L["nv"] == 3 else None
+            for _ in range(4):
+                if L3 is not None:
+                    break
+                c = self.gen(depth - 1, real=real)
+                L3 = c if c["nv"] == 3 else None
+            if L3 is None:
+                return L
+            R = None
+            if rng.random() < 0.55:
+                for _ in range(4):
+                    c = self.gen(depth - 1, real=real)
+                    if c["nv"] == 3:
+                        R = c
+                        break
+            if R is None:
+                R = self.arr([3], L3["mg"], real=real)
+            a, b, form = L3, R, rng.choice(["op", "method"])
+            if R["node"]["t"] == "arr" and R["node"]["py"] != "ndarray" and rng.random() < 0.35:
+                a, b, form = R, L3, "op"
+            g = self.bin("cross", a, b, L3["mg"] + R["mg"], nv=3)
+            g["node"]["form"] = form
+            return g
+        # stacking
+        rr = rng.random()
+        if rr < 0.55:
+            R = self.gen(depth - 1, real=real)
+        elif rr < 0.8:
+            R = self.num(L["mg"], real=real)
+        else:
+            R = self.arr([rng.choice([1, 2, 3])], L["mg"], real=real)
+        a, b = L, R
+        if R["node"]["t"] != "leaf" and R["nv"] in ("num",) and R["node"]["py"] in ("int", "float", "complex") and rng.random() < 0.35:
+            a, b = R, L
+        cnt = lambda g: g["nv"] if isinstance(g["nv"], int) else (1 if g["nv"] == "num" else g["nv"][1])
+        return self.bin("shl", a, b, max(L["mg"], R["mg"]), nv=cnt(L) + cnt(R))
+
+    def bin(self, op, a, b, mg, nv=None):
+        cnt = lambda g: g["nv"] if isinstance(g["nv"], int) else (1 if g["nv"] == "num" else g["nv"][1])
+        return dict(node=dict(t="bin", op=op, l=a["node"], r=b["node"]), nv=nv if nv is not None else max(cnt(a), cnt(b)),
+                    cplx=a["cplx"] or b["cplx"], int=a["int"] and b["int"] and op not in ("div", "udiv"), mg=mg)
+
+
+def leaf_array(fs, n):
+    """the array handed to the Field constructor for leaf spec fs"""
+    nv = fs["nvdim"]
+    if fs["dtype"] in ("int64", "int32") and all(F(x).denominator == 1 for x in fs["re"]):
+        return np.array([int(F(x)) for x in fs["re"]], dtype=DTYPES[fs["dtype"]]).reshape(*n, nv)
+    re = np.array([float(F(x)) for x in fs["re"]], dtype=float)
+    arr = re + 1j * np.array([float(F(x)) for x in fs["im"]], dtype=float) if fs["im"] is not None else re
+    arr = arr.reshape(*n, nv)
+    if fs["dtype"] not in (None, "cvalue"):
+        arr = arr.astype(DTYPES[fs["dtype"]])
+    return arr
+
+
+def _dt(x):
+    return np.asarray(x).dtype if isinstance(x, (list, tuple)) else np.result_type(x)
+
+
+def _unit(val):
+    dt = _dt(val)
+    if dt.kind in "iub":
+        return 0.0, 0.0
+    return (2.0 ** -23, 2.0 ** -149) if dt in (np.dtype(np.float32), np.dtype(np.complex64)) else (2.0 ** -52, 2.0 ** -1074)
+
+
+def _mag(x):
+    a = np.abs(np.asarray(x))
+    return a.astype(np.float64) if a.dtype != np.float64 else a
+
+
+class Ref:
+    """the expression evaluated by NumPy on the whole arrays (numbers, constant vectors and per-cell arrays as they are,
+    broadcasting left to NumPy), with a running bound `err` of |computed - exact| for every entry (first-order rounding
+    analysis with a factor-4 margin per operation; conversions between dtypes, underflow granularity included).
+    `overflow` is set when an integer-typed intermediate may leave its range (then nothing is exact anywhere)."""
+
+    def __init__(self, arrays, n):
+        self.arrays, self.n, self.overflow, self.cos = arrays, tuple(int(k) for k in n), False, None
+
+    def conv(self, x, ex, val):
+        """operand x enters an operation whose result has the dtype of val: a narrower result type rounds it first"""
+        if _dt(x) != _dt(val) and _dt(val).kind in "fc":
+            return ex + _unit(val)[0] * _mag(x)
+        return ex
+
+    def rnd(self, val, c=4.0):
+        u, tiny = _unit(val)
+        if np.result_type(val).kind in "iu":
+            lim = INT_LIM.get(np.result_type(val).itemsize, 2.0 ** 14)
+            if np.any(_mag(val) >= lim):
+                self.overflow = True
+            return 0.0
+        if np.result_type(val).kind == "c":
+            c *= 2
+        return c * u * _mag(val) + 4 * tiny
+
+    def intguard(self, val, bound):
+        if np.result_type(val).kind in "iu":
+            lim = INT_LIM.get(np.result_type(val).itemsize, 2.0 ** 14)
+            if np.any(bound >= lim):
+                self.overflow = True
+
+    def lift(self, x, ex):
+        """an operand of << / angle as the constructor sees it: one component for a number, len(x) for a vector"""
+        a = np.asarray(x)
+        if a.ndim == 0:
+            a = a.reshape(1)
+        full = np.broadcast_to(a, self.n + (a.shape[-1],))
+        return full, np.broadcast_to(np.asarray(ex, dtype=float), full.shape) if np.ndim(ex) else np.zeros(full.shape)
+
+    def mul(self, x, ex, y, ey):
+        val = np.multiply(x, y)
+        ex, ey = self.conv(x, ex, val), self.conv(y, ey, val)
+        ax, ay = _mag(x), _mag(y)
+        self.intguard(val, ax * ay)
+        return val, ax * ey + ay * ex + ex * ey + self.rnd(val)
+
+    def div(self, x, ex, y, ey):
+        val = np.divide(x, y)
+        ex, ey = self.conv(x, ex, val), self.conv(y, ey, val)
+        den = _mag(y) - ey
+        return val, np.where(den > 0, (ex + _mag(val) * ey) / np.where(den > 0, den, 1.0), np.inf) + self.rnd(val)
+
+    def dot(self, x, ex, y, ey):
+        p, ep = self.mul(x, ex, y, ey)
+        val = np.sum(p, axis=-1, keepdims=True)
+        u, tiny = _unit(val)
+        sp = np.sum(_mag(p), axis=-1, keepdims=True)
+        self.intguard(p, sp)   # einsum accumulates in the operands' integer type
+        return val, np.sum(np.broadcast_to(ep, p.shape), axis=-1, keepdims=True) + (p.shape[-1] + 2) * 2 * u * sp + 4 * tiny
+
+    def ev(self, node):
+        t = node["t"]
+        if t == "leaf":
+            a = self.arrays[node["k"]]
+            return a, np.zeros(a.shape)
+        if t in ("num", "arr"):
+            return build_opd(node), 0.0
+        if t == "un":
+            x, ex = self.ev(node["e"])
+            op = node["op"]
+            if op in ("pos", "upositive"):
+                return x, ex
+            if op in ("neg", "unegative"):
+                return np.negative(x), ex
+            if op in ("abs", "absP", "uabsolute"):
+                val = np.abs(x)
+                return val, ex + (self.rnd(val) if np.iscomplexobj(x) else 0.0)
+            if op == "real":
+                return np.real(x), ex
+            if op == "imag":
+                return np.imag(x), ex
+            if op in ("conj", "uconjugate"):
+                return np.conjugate(x), ex
+            if op == "usquare":
+                val = np.square(x)
+                ax = _mag(x)
+                self.intguard(val, ax * ax)
+                return val, 2 * ax * ex + ex * ex + self.rnd(val)
+            raise Refused(op)
+        x, ex = self.ev(node["l"])
+        y, ey = self.ev(node["r"])
+        op = node["op"]
+        if op in ("add", "sub", "uadd", "usub"):
+            val = (np.add if op in ("add", "uadd") else np.subtract)(x, y)
+            ex, ey = self.conv(x, ex, val), self.conv(y, ey, val)
+            self.intguard(val, _mag(x) + _mag(y))
+            return val, ex + ey + self.rnd(val)
+        if op in ("mul", "umul"):
+            return self.mul(x, ex, y, ey)
+        if op in ("div", "udiv"):
+            return self.div(x, ex, y, ey)
+        if op in ("umax", "umin"):
+            val = (np.maximum if op == "umax" else np.minimum)(x, y)
+            ex, ey = self.conv(x, ex, val), self.conv(y, ey, val)
+            return val, np.maximum(ex, ey) + np.zeros(np.shape(val))
+        if op in ("pow", "upow"):
+            k = float(np.real(y))
+            val = np.power(x, y)
+            ex = self.conv(x, ex, val)
+            ax = _mag(x)
+            self.intguard(val, ax ** abs(k))
+            if k == 0:
+                return val, np.zeros(np.shape(val))
+            den = ax - ex
+            rel = np.where(den > 0, ex / np.where(den > 0, den, 1.0), np.inf)
+            return val, abs(k) * _mag(val) * rel * (1 + rel) ** max(abs(k) - 1, 0) + (abs(k) + 2) * self.rnd(val)
+        if op == "dot":
+            return self.dot(x, ex, y, ey)
+        if op == "cross":
+            val = np.cross(x, y)
+            shp = val.shape
+            ex, ey = self.conv(x, ex, val), self.conv(y, ey, val)
+            ax, ay = np.broadcast_to(_mag(x), shp), np.broadcast_to(_mag(y), shp)
+            ex, ey = np.broadcast_to(ex, shp), np.broadcast_to(ey, shp)
+            j, k = [1, 2, 0], [2, 0, 1]
+            u, tiny = _unit(val)
+            if np.result_type(val).kind == "c":
+                u *= 2
+            pr = ax[..., j] * ay[..., k] + ax[..., k] * ay[..., j]
+            self.intguard(val, pr)
+            e = (ax[..., j] * ey[..., k] + ay[..., k] * ex[..., j] + ex[..., j] * ey[..., k]
+                 + ax[..., k] * ey[..., j] + ay[..., j] * ex[..., k] + ex[..., k] * ey[..., j])
+            return val, e + 12 * u * pr + 4 * tiny
+        if op == "shl":
+            X, eX = self.lift(x, ex)
+            Y, eY = self.lift(y, ey)
+            return np.concatenate([X, Y], axis=-1), np.concatenate([eX, eY], axis=-1)
+        if op == "angle":
+            X, eX = self.lift(x, ex)
+            Y, eY = self.lift(y, ey)
+            if np.iscomplexobj(X) or np.iscomplexobj(Y):
+                raise Refused("complex angle")
+            d, ed = self.dot(X, eX, Y, eY)
+            norms = []
+            for V, eV in ((X, eX), (Y, eY)):
+                nrm = np.linalg.norm(V, axis=-1, keepdims=True)
+                u, tiny = _unit(nrm)
+                aV = _mag(V)
+                S = np.sum(aV * aV, axis=-1, keepdims=True)
+                eS = np.sum(2 * aV * eV + eV * eV, axis=-1, keepdims=True) + (V.shape[-1] + 4) * 2 * u * S + (V.shape[-1] + 1) * 2 * tiny
+                an = _mag(nrm)
+                norms.append((nrm, np.where(an > 0, eS / np.where(an > 0, 2 * an, 1.0), np.inf) + 4 * u * an + 4 * tiny))
+            nn, enn = self.mul(norms[0][0], norms[0][1], norms[1][0], norms[1][1])
+            c, ec = self.div(d, ed, nn, enn)
+            self.cos = (c, ec)
+            return np.arccos(c), np.full(np.shape(c), np.nan)
+        raise Refused(op)
+
+
+def gen_mcase(rng, tier):
+    spec, dims, _ = gen_env(rng, tier, nfields=1)
+    n = spec["n"]
+    ndim, ncells = len(n), int(np.prod(n))
+    angle = rng.random() < 0.3
+    K = rng.choice([1, 2, 3, 3, 3, 4])
+    fields = []
+    for _ in range(rng.choice([1, 2, 2, 3, 3])):
+        dtype = rng.choice(MF_REAL if angle else MF_DTYPES)
+        nv = K if (angle or rng.random() < 0.6) else rng.choice([1, 1, 2, 3, 4])
+        fields.append(gen_mfield(rng, ncells, ndim, dims, nv, dtype, draw_e10(rng, single=dtype in ("float32", "complex64"))))
+    mg = MGen(rng, fields, n)
+    if angle:
+        L = mg.gen(rng.randint(0, 2), real=True)
+        how = rng.choice(["field", "field", "parallel", "antiparallel", "sumdiff", "vector", "array", "number"])
+        if how == "number" and L["nv"] != 1:
+            how = "vector"
+        if how == "field":
+            R = mg.partner(L, rng.randint(0, 2), real=True, same_nv=True, fields_only=True) or mg.arr([L["nv"]], L["mg"], real=True)
+        elif how in ("parallel", "antiparallel"):
+            # the angle of a vector with a multiple of itself: cos = +-1 up to rounding
+            c = mg.num(0.0, real=True)
+            c["node"]["v"][0] = Q(abs(F(c["node"]["v"][0])) * (1 if how == "parallel" else -1))
+            R = mg.bin(rng.choice(["mul", "div"]), L, c, L["mg"])
+            if F(c["node"]["v"][0]) == 0:
+                R = L
+        elif how == "sumdiff":
+            P = mg.partner(L, 0, real=True, same_nv=True, fields_only=True) or L
+            L, R = mg.bin("add", L, P, L["mg"]), mg.bin("sub", L, P, L["mg"])
+        elif how == "vector":
+            R = mg.arr([L["nv"]], L["mg"], real=True)
+        elif how == "array":
+            R = mg.arr(n + [L["nv"]], L["mg"], real=True)
+        else:
+            R = mg.num(L["mg"], real=True)
+        return dict(kind="mangle", how=how, meshes=[spec], fields=fields, expr=dict(t="bin", op="angle", l=L["node"], r=R["node"]))
+    g = mg.gen(rng.randint(1, 3))
+    for _ in range(3):
+        if g["node"]["t"] != "leaf":
+            break
+        g = mg.gen(rng.randint(1, 3))
+    return dict(kind="mtree", meshes=[spec], fields=fields, expr=g["node"])
+
+
+def stream_mfloat(rng, tier, count):
+    for _ in range(count):
+        for _ in range(8):
+            case = gen_mcase(rng, tier)
+            if case["expr"]["t"] == "leaf":
+                continue
+            # integer-typed intermediates must stay in range (wrap-around is outside the model)
+            n = case["meshes"][0]["n"]
+            ref = Ref([leaf_array(fs, n) for fs in case["fields"]], n)
+            try:
+                with np.errstate(all="ignore"):
+                    ref.ev(case["expr"])
+            except Exception:
+                pass  # refused combinations stay in: code and model have to refuse alike
+            if not ref.overflow:
+                break
+        else:
+            continue
+        yield case
+
+
+def long_mesh_spec(rng, tier):
+    """thousands of cells along one axis (the other axes short), exact dyadic geometry"""
+    N = rng.choice([257, 1000, 1024, 2049, 4096] if tier == "quick" else [1000, 4096, 5000, 8191])
+    ndim = rng.choice([1, 1, 2, 3])
+    ax = rng.randrange(ndim)
+    n = [N if a == ax else rng.choice([1, 1, 2]) for a in range(ndim)]
+    cell = [Fraction(rng.choice([1, 3, 5]), 2 ** rng.randint(0, 3)) for _ in range(ndim)]
+    pmin = [Fraction(rng.randint(-40, 40), 4) for _ in range(ndim)]
+    spec = dict(p1=[float(x) for x in pmin], p2=[float(a + k * c) for a, k, c in zip(pmin, n, cell)], n=n, dims=None, bc="",
+                intcorners=False)
+    return magnify_mesh(rng, spec) if rng.random() < 0.4 else spec
+
+
+def stream_long(rng, tier, count):
+    """shallow trees on meshes with thousands of cells along one axis: exact regime (as generated and rescaled) and
+    full-significand data"""
+    for i in range(count):
+        spec = long_mesh_spec(rng, tier)
+        n = spec["n"]
+        ndim, ncells = len(n), int(np.prod(n))
+        dims = ["x", "y", "z"][:ndim]
+        if i % 2:
+            K = rng.choice([1, 2, 3])
+            fields = [gen_mfield(rng, ncells, ndim, dims, K if rng.random() < 0.7 else 1, rng.choice(MF_DTYPES), draw_e10(rng, single=True))
+                      for _ in range(rng.choice([1, 2]))]
+            mg = MGen(rng, fields, n)
+            for _ in range(6):
+                g = mg.gen(rng.randint(1, 2))
+                if g["node"]["t"] != "leaf":
+                    break
+            yield dict(kind="mtree", long=True, meshes=[spec], fields=fields, expr=g["node"])
+            continue
+        K = rng.choice([1, 2, 3])
+        fields = [gen_field_spec(rng, 0, ncells, ndim, dims, nv=K if rng.random() < 0.7 else 1) for _ in range(rng.choice([1, 2]))]
+        fields.append(gen_field_spec(rng, 0, ncells, ndim, dims, nv=rng.choice([1, K]), cls="pow2", dtype=rng.choice([None, "float64", "complex128"])))
+        tg = TreeGen(rng, fields, n, 2)
+        for _ in range(6):
+            g = tg.gen(rng.randint(1, 2))
+            if g.node["t"] != "leaf":
+                break
+        case = dict(kind="tree", long=True, meshes=[spec], fields=fields, expr=g.node)
+        yield (rescale_case(case, rng) if rng.random() < 0.5 else None) or case
+
+
 def cases(rng, tier):
     """all streams interleaved (deterministically, by the run's PRNG), so a run cut short by the time budget still
     exercises every stream"""
@@ -746,7 +1636,8 @@ def cases(rng, tier):
     plan = [(stream_main, 4600 if quick else 24000), (stream_route3, 450 if quick else 2000),
             (stream_malformed, 1000 if quick else 5000), (stream_mismatch, 550 if quick else 2500),
             (stream_meta, 550 if quick else 2500), (stream_stack, 250 if quick else 1200),
-            (stream_pair, 450 if quick else 2000)]
+            (stream_pair, 450 if quick else 2000), (stream_scaled, 1500 if quick else 8000),
+            (stream_mfloat, 900 if quick else 5000), (stream_long, 10 if quick else 60)]
     gens = [fn(rng, tier, cnt) for fn, cnt in plan]
     schedule = [k for k, (_, cnt) in enumerate(plan) for _ in range(cnt)]
     rng.shuffle(schedule)
@@ -761,17 +1652,11 @@ def cases(rng, tier):
 def build_field(fs, meshes):
     mesh = meshes[fs["mesh"]]
     nv = fs["nvdim"]
-    re = np.array([float(F(x)) for x in fs["re"]], dtype=float)
-    if fs["im"] is not None:
-        arr = re + 1j * np.array([float(F(x)) for x in fs["im"]], dtype=float)
-    else:
-        arr = re
-    arr = arr.reshape(*mesh.n, nv)
+    arr = leaf_array(fs, [int(k) for k in mesh.n])
     dtype = fs["dtype"]
     kw = {}
     if dtype not in (None, "cvalue"):
         kw["dtype"] = DTYPES[dtype]
-        arr = arr.astype(DTYPES[dtype])
     if fs["vdims"] is not None:
         kw["vdims"] = list(fs["vdims"])
     if fs["vmap"] is not None:
@@ -794,9 +1679,14 @@ def build_opd(node):
             return np.float64(float(re))
         if py == "np.int64":
             return np.int64(int(re))
+        if py == "np.float32":
+            return np.float32(float(re))
         return np.complex128(complex(float(re), float(im)))
     dt = DTYPES[node["dtype"]]
-    a = np.array([float(F(x)) for x in node["re"]], dtype=float)
+    if np.dtype(dt).kind == "i" and all(F(x).denominator == 1 for x in node["re"]):
+        a = np.array([int(F(x)) for x in node["re"]], dtype=dt)
+    else:
+        a = np.array([float(F(x)) for x in node["re"]], dtype=float)
     if node["im"] is not None:
         a = a + 1j * np.array([float(F(x)) for x in node["im"]], dtype=float)
     a = a.astype(dt).reshape(node["shape"])
@@ -872,14 +1762,16 @@ class Refused(Exception):
     pass
 
 
-def same_field(a, b):
-    """list of aspects in which two results differ ([] = same field)"""
+def same_field(a, b, rtol=None):
+    """list of aspects in which two results differ ([] = same field); rtol: full-significand data, where the two operand
+    orders may round differently (fused multiply-add in complex products)"""
     d = []
     if not (a.mesh == b.mesh and mesh_state(a.mesh)[:6] == mesh_state(b.mesh)[:6]):
         d.append("mesh")
     if a.nvdim != b.nvdim:
         d.append("nvdim")
-    elif not np.array_equal(a.array, b.array):
+    elif not (np.array_equal(a.array, b.array) if rtol is None else
+              (a.array.dtype == b.array.dtype and np.allclose(a.array, b.array, rtol=rtol, atol=0, equal_nan=True))):
         d.append("array")
     if not np.array_equal(a.valid, b.valid):
         d.append("valid")
@@ -897,8 +1789,8 @@ def is_np_obj(x):
 class Evaluator:
     """evaluates a tree through the public API with the property's checks around every step"""
 
-    def __init__(self, fields, fail, tags):
-        self.fields, self.fail, self.tags = fields, fail, tags
+    def __init__(self, fields, fail, tags, rtol=None):
+        self.fields, self.fail, self.tags, self.rtol = fields, fail, tags, rtol
         self.steps = 0
 
     def ev(self, node):
@@ -985,7 +1877,7 @@ class Evaluator:
             return
         if err is not None:
             return
-        d = same_field(r, r2)
+        d = same_field(r, r2, self.rtol)
         if d:
             only_meta = set(d) <= {"vdims", "vdim_mapping"}
             c = cls if (cls in ("[D10]", "[D51]") and only_meta) else ""
@@ -1021,6 +1913,9 @@ def tree_ops(node, acc=None):
     return acc
 
 
+_OPD_CACHE = {}
+
+
 def cell_eval(node, fields, n, idx):
     """the same expression on one cell: 1-d component vectors, numbers, constant vectors, the cell's row"""
     t = node["t"]
@@ -1029,7 +1924,9 @@ def cell_eval(node, fields, n, idx):
     if t == "num":
         return build_opd(node)
     if t == "arr":
-        a = np.asarray(build_opd(node))
+        a = _OPD_CACHE.get(id(node))
+        if a is None:
+            a = _OPD_CACHE[id(node)] = np.asarray(build_opd(node))   # built once per check, not once per cell
         d = len(n)
         if a.ndim == 0:
             return a
@@ -1081,10 +1978,18 @@ def check_cellwise(case, res, fields, fail):
     ops = set(tree_ops(case["expr"]))
     loose = bool(ops & INEXACT_OPS) or case["kind"] in ("angle", "phase", "tdiv")
     single = any(fs["dtype"] in ("float32", "complex64") for fs in case["fields"])
+    _OPD_CACHE.clear()
     with np.errstate(all="ignore"):
         for idx in np.ndindex(*n):
             try:
-                exp = np.atleast_1d(np.asarray(cell_eval(case["expr"], fields, n, idx)))
+                if case["kind"] == "angle":
+                    # the cosine itself: arccos is ill-conditioned at +-1 and gives nan when rounding pushes |cos| above 1
+                    x = np.atleast_1d(cell_eval(case["expr"]["l"], fields, n, idx))
+                    y = np.atleast_1d(cell_eval(case["expr"]["r"], fields, n, idx))
+                    cosv = np.sum(np.multiply(x, y)) / (np.sqrt(np.sum(np.abs(x) ** 2)) * np.sqrt(np.sum(np.abs(y) ** 2)))
+                    exp = np.atleast_1d(np.arccos(cosv))
+                else:
+                    exp = np.atleast_1d(np.asarray(cell_eval(case["expr"], fields, n, idx)))
             except Refused:
                 return
             except Exception as e:
@@ -1095,8 +2000,15 @@ def check_cellwise(case, res, fields, fail):
                 fail(f"CELL: cell {idx} has {got.shape[0]} components, the expression evaluated at that cell has shape {exp.shape}")
                 return
             if case["kind"] == "angle":
-                # arccos is ill-conditioned at +-1 and gives nan when rounding pushes |cos| above 1: compare cosines
-                ok = np.all(np.isnan(got) | np.isnan(exp) | np.isclose(np.cos(got), np.cos(exp), rtol=0, atol=1e-5 if single else 1e-9))
+                # compare cosines; a zero vector (cosine 0/0) is outside the property; nan is the answer only where the
+                # cosine is +-1 up to rounding
+                tol = 1e-5 if single else 1e-9
+                if np.iscomplexobj(cosv) or not np.isfinite(cosv):
+                    ok = True
+                elif np.isnan(got[0]):
+                    ok = abs(cosv) >= 1 - tol
+                else:
+                    ok = abs(np.cos(float(got[0])) - min(1.0, max(-1.0, float(cosv)))) <= tol
             elif case["kind"] == "phase":
                 # transcendental leaf: signed zeros / |cos| rounding above 1 give +-pi or nan on either side (IEEE, outside the property)
                 ok = np.all(np.isnan(got) | np.isnan(exp) | np.isclose(got, exp, rtol=1e-5 if single else 1e-9, atol=1e-5 if single else 1e-7)
@@ -1111,6 +2023,57 @@ def check_cellwise(case, res, fields, fail):
             if not ok:
                 fail(f"CELL: cell {idx} of the result is {got.tolist()}, the same expression evaluated at that cell gives {exp.tolist()}")
                 return
+
+
+def check_ref(case, res, fields, fail, obs):
+    """tolerance regime: the result against the expression evaluated by NumPy on the whole arrays, within the running
+    rounding bound; the bound travels in obs for the comparison with the exact model value"""
+    n = [int(k) for k in res.mesh.n]
+    ref = Ref([f.array for f in fields], n)
+    with np.errstate(all="ignore"):
+        try:
+            val, err = ref.ev(case["expr"])
+        except Refused:
+            return
+        except Exception as e:
+            fail(f"CELL: the expression is accepted on the fields but NumPy refuses it on the arrays: {type(e).__name__}: {e}")
+            return
+    got = res.array
+    if np.shape(val) != got.shape:
+        fail(f"CELL: the result array has shape {got.shape}, the expression evaluated by NumPy on the arrays has shape {np.shape(val)}")
+        return
+    if ref.overflow:
+        obs["tags"].append("integer-range-left")
+        obs["skip_model"] = True
+    with np.errstate(all="ignore"):
+        if case["kind"] == "mangle":
+            c, ec = ref.cos
+            u = _unit(got)[0]
+            tol = 4 * ec + 16 * u
+            cg = np.cos(got.astype(np.float64))
+            cc = np.clip(c.astype(np.float64), -1, 1)
+            decided = np.isfinite(c) & np.isfinite(tol)
+            bad = decided & np.where(np.isnan(got), np.abs(c) < 1 - tol, ~(np.abs(cg - cc) <= tol))
+            obs["tol"] = [float(t) if d else None for t, d in zip(tol.reshape(-1), decided.reshape(-1))]
+            obs["tags"].append("angle:" + case.get("how", "?"))
+            if np.any(np.isfinite(c) & (np.abs(c) >= 1 - 1e-9)):
+                obs["tags"].append("angle:(anti)parallel-cells")
+        else:
+            err = np.broadcast_to(np.asarray(err, dtype=float), got.shape)
+            decided = np.isfinite(val) & np.isfinite(err)
+            wide = lambda a: a.astype(np.clongdouble if np.iscomplexobj(a) else np.longdouble)  # exact for int64
+            bad = decided & ~(np.abs(wide(got) - wide(np.asarray(val))) <= 4 * err)
+            obs["tol"] = [float(t) if d else None for t, d in zip((4 * err).reshape(-1), decided.reshape(-1))]
+            m = _mag(val)[decided & (_mag(val) > 0)]
+            if m.size:
+                obs["tags"].append("result-magnitude:" + mag_bucket(float(np.log2(np.max(m)))))
+        if not np.all(decided):
+            obs["tags"].append("undecided-cells(non-finite / unbounded error)")
+    if np.any(bad):
+        idx = tuple(int(i) for i in np.argwhere(bad)[0])
+        fail(f"CELL: entry {idx} of the result is {got[idx]!r}, the same expression evaluated by NumPy on the arrays gives "
+             f"{(np.arccos(ref.cos[0]) if case['kind'] == 'mangle' else val)[idx]!r} (rounding bound {obs['tol'][int(np.ravel_multi_index(idx, got.shape))]:.3g}"
+             f"{' on the cosine' if case['kind'] == 'mangle' else ''})")
 
 
 def check_stack(f, fail, what):
@@ -1193,7 +2156,7 @@ def field_obs(f):
     if np.iscomplexobj(arr):
         data = [[Q(float(z.real)), Q(float(z.imag))] if np.isfinite(z) else None for z in arr.tolist()]
     else:
-        data = [[Q(float(z)), "0"] if np.isfinite(z) else None for z in arr.tolist()]
+        data = [[Q(z) if isinstance(z, int) else Q(float(z)), "0"] if np.isfinite(z) else None for z in arr.tolist()]
     return dict(mesh=fieldio.mesh_json(f.mesh), nvdim=int(f.nvdim), data=data,
                 valid=[bool(v) for v in np.asarray(f.valid).reshape(-1).tolist()],
                 vdims=(list(f.vdims) if f.vdims is not None else None),
@@ -1212,6 +2175,11 @@ def run_impl(case):
     for fs in case["fields"]:
         obs["tags"].append("dtype:" + str(fs["dtype"]))
     obs["tags"].append(f"ndim:{len(meshes[0].n)}")
+    obs["tags"].append("cells-along-longest-axis:" + next(f"<={b}" for b in (4, 8, 64, 512, 4096, 10 ** 9) if max(meshes[0].n) <= b))
+    mm = case["meshes"][0].get("mag")
+    obs["tags"].append("mesh-scale:2^j:" + (mag_bucket(mm[0]) if mm else "as-generated") + ("+far-from-origin" if mm and mm[1] else ""))
+    for k in case.get("scaled", []):
+        obs["tags"].append("scaled:2^k:" + mag_bucket(k))
     if case["kind"] == "stack":
         f = fields[0]
         st = check_stack(f, fail, "a leaf field")
@@ -1221,7 +2189,9 @@ def run_impl(case):
     elif case["kind"] == "pair":
         run_pair(case, obs, fields, fail)
     else:
-        ev = Evaluator(fields, fail, obs["tags"])
+        mf = case["kind"] in ("mtree", "mangle")
+        single = any(fs["dtype"] in ("float32", "complex64") for fs in case["fields"])
+        ev = Evaluator(fields, fail, obs["tags"], rtol=(1e-5 if single else 1e-13) if mf else None)
         with np.errstate(all="ignore"):
             try:
                 res = ev.ev(case["expr"])
@@ -1246,7 +2216,11 @@ def run_impl(case):
             obs["lift_ok"] = lift_ok(case["expr"], [int(k) for k in res.mesh.n])
             if not obs["lift_ok"]:
                 obs["tags"].append("mesh-shaped-operand-under-shl/angle")
-            if len(case["meshes"]) == 1 and obs["lift_ok"]:
+            if mf and obs["lift_ok"]:
+                check_ref(case, res, fields, fail, obs)
+                if res.nvdim >= 2 and not np.isnan(res.array).any():
+                    check_stack(res, fail, "the result")
+            elif len(case["meshes"]) == 1 and obs["lift_ok"] and not mf:
                 check_cellwise(case, res, fields, fail)
                 if res.nvdim >= 2 and not np.isnan(res.array).any():
                     check_stack(res, fail, "the result")
@@ -1290,7 +2264,8 @@ def leaf_json(f):
                 vmap=[[k, v] for k, v in f.vdim_mapping.items()], unit=o["unit"], kind=o["kind"])
 
 
-NUMKIND = {"int": "int", "float": "float", "complex": "complex", "np.float64": "float", "np.int64": "int", "np.complex128": "complex"}
+NUMKIND = {"int": "int", "float": "float", "complex": "complex", "np.float64": "float", "np.int64": "int", "np.complex128": "complex",
+           "np.float32": "float"}
 
 
 def expr_json(node):
@@ -1317,7 +2292,7 @@ def model_requests(case, obs):
             return [dict(op="pair1", field=fields[case["l"]["k"]])]
         return [dict(op="pair", fields=fields, l=expr_json(case["l"]), r=expr_json(case["r"]))]
     e = expr_json(case["expr"])
-    if case["kind"] == "angle":
+    if case["kind"] in ("angle", "mangle"):
         return [dict(op="eval", fields=fields, expr=e, sq="id"), dict(op="eval", fields=fields, expr=e, sq="one")]
     if case["kind"] == "phase":
         return [dict(op="eval", fields=fields, expr=e), dict(op="eval", fields=fields, expr=e["e"])]
@@ -1411,6 +2386,45 @@ def compare(case, obs, rs):
     if not cmp_meta(name, got, mj, dis):
         return dis
     single = any(fs["dtype"] in ("float32", "complex64") for fs in case["fields"])
+    if case["kind"] in ("mtree", "mangle") and obs.get("skip_model"):
+        return dis
+    if case["kind"] == "mangle":
+        # as for `angle` below, with the running rounding bound of the reference evaluation as tolerance on the cosine
+        if "ok" not in rs[1]:
+            dis.append("mangle: model refuses the second evaluation")
+            return dis
+        for k, (z, s1, s2, tol) in enumerate(zip(got["data"], mj["data"], rs[1]["ok"]["data"], obs.get("tol", []))):
+            if tol is None:
+                continue
+            v1, d = parse_gq(s1)[0], parse_gq(s2)[0]
+            c2 = v1 * d
+            cosm = (1.0 if d > 0 else -1.0 if d < 0 else 0.0) * (float(max(c2, Fraction(0))) ** 0.5)
+            if z is None:
+                if not ((d == 0 and v1 == 0) or abs(cosm) >= 1 - tol):
+                    dis.append(f"mangle: cell {k}: impl nan, model cos {cosm}")
+                    break
+                continue
+            if abs(np.cos(float(F(z[0]))) - max(-1.0, min(1.0, cosm))) > tol or F(z[1]) != 0:
+                dis.append(f"mangle: cell {k}: cos(impl) {np.cos(float(F(z[0])))} vs model {cosm} (rounding bound {tol:.3g})")
+                break
+        return dis
+    if case["kind"] == "mtree":
+        if mj.get("inexact"):
+            obs["tags"].append("model-inexact-root-skipped")
+            return dis
+        for k, (z, s, tol) in enumerate(zip(got["data"], mj["data"], obs.get("tol", []))):
+            if tol is None:
+                continue
+            a, b = parse_gq(s)
+            if z is None:
+                dis.append(f"mtree: position {k}: impl not finite, model {float(a)}{'+' + str(float(b)) + 'j' if b else ''}")
+                break
+            t = Fraction(tol)
+            if abs(F(z[0]) - a) > t or abs(F(z[1]) - b) > t:
+                dis.append(f"mtree: position {k}: impl {float(F(z[0]))}{'+' + str(float(F(z[1]))) + 'j' if b else ''} vs model "
+                           f"{float(a)}{'+' + str(float(b)) + 'j' if b else ''} (rounding bound {tol:.3g})")
+                break
+        return dis
     if case["kind"] == "angle":
         # model with sq=id, acos=id gives d/(A*B); with sq=1 gives d; cos = sign(d) * sqrt(d/(A*B) * d)
         m1, m2 = mj["data"], rs[1]["ok"]["data"]
